@@ -402,3 +402,50 @@ func VerifC04LoopNest() {
 	zz.Assert(err == nil, "C04.no-error-expected")
 	c04SameTrace(ref)
 }
+
+// keys of different kinds, some with the same string form
+var c04KeyUniverse = []interface{}{1.0, "1", true, "true", "a", 2.0, "2", "b"}
+var c04KeyStrings = []string{"1", "1", "true", "true", "a", "2", "2", "b"}
+
+// VerifC04MapLoop: a loop over a map runs once per element, as [key, value], keys in string order - for maps whose
+// keys are of different kinds (number, string, boolean), including different keys with the same string form
+// (their mutual order is not defined; every entry is still visited exactly once).
+func VerifC04MapLoop() {
+	erp, vs := c04Setup()
+	n := len(c04KeyUniverse)
+	c0 := zz.Choice("key0", n)
+	c1 := zz.Choice("key1", n)
+	c2 := zz.Choice("key2", n)
+	zz.Assume(c0 < c1 && c1 < c2)
+	m := map[interface{}]interface{}{}
+	for _, c := range []int{c0, c1, c2} {
+		m[c04KeyUniverse[c]] = float64(c)
+	}
+	vs.SetValue("m", m)
+	single := zz.Bool("singleVariable")
+	src := "for [k, v] in m {\n mark(v)\n}\nmark(100)"
+	if single {
+		src = "for x in m {\n mark(x[1])\n}\nmark(100)"
+	}
+	_, err := zzRun(erp, src, vs)
+	zz.Reach("evaluated")
+	zz.Assert(err == nil, "C04.no-error-expected")
+	zz.Assert(len(c04Trace) == 4, "C04.map-loop-runs-once-per-element")
+	if len(c04Trace) != 4 {
+		return
+	}
+	zz.Assert(c04Trace[3] == 100, "C04.trace")
+	seen := map[int]int{}
+	prev := ""
+	for i := 0; i < 3; i++ {
+		c := int(c04Trace[i])
+		zz.Assert(c == c0 || c == c1 || c == c2, "C04.map-loop-runs-once-per-element")
+		if !(c == c0 || c == c1 || c == c2) {
+			return
+		}
+		seen[c]++
+		zz.Assert(seen[c] == 1, "C04.map-loop-runs-once-per-element")
+		zz.Assert(prev <= c04KeyStrings[c], "C04.map-keys-in-string-order")
+		prev = c04KeyStrings[c]
+	}
+}
